@@ -157,3 +157,57 @@ func c16wire(c *ctx, idx int) {
 	cli.Close()
 	srv.Close()
 }
+
+// c16race (thorough tier / search): commitUpdate loops against traffic + updateUsageQueueForOne loops (never against
+// updateUsageQueue: that overlap is C17's lock-order finding) — nothing is linearised, only the exact-once clause is
+// evaluated at the final quiescence. Finds a queue reset that is not atomic with the snapshot.
+func c16race(c *ctx, idx int) {
+	o, r := c.o, c.r
+	g := &c16rig{c: c, rig: newPanelRig(1000), users: map[int]*c16user{}, now: 1000, idx: 2000 + idx}
+	defer g.rig.close()
+	const init = int64(1) << 40
+	rig := g.rig
+	rig.putUser(1, 10, init, init, 1<<40)
+	rec, err := rig.panel.GetUser(uidBytes(1), false)
+	if err != nil {
+		return
+	}
+	if _, _, _, err := server.VerifGetSession(rec, 1, c.freshKey()); err != nil {
+		return
+	}
+	iters := 3000
+	var carried [2]int64
+	done := make(chan struct{})
+	go func() {
+		for i := 0; i < iters; i++ {
+			rig.panel.CommitUpdate()
+		}
+		close(done)
+	}()
+	rr := r.fork()
+	v := server.VerifValve(rec)
+	for i := 0; i < iters; i++ {
+		n := int64(1 + rr.intn(9))
+		if rr.intn(2) == 0 {
+			v.AddRx(n)
+			carried[0] += n
+		} else {
+			v.AddTx(n)
+			carried[1] += n
+		}
+		rig.panel.UpdateUsageQueueForOne(rec)
+	}
+	<-done
+	rig.panel.UpdateUsageQueueForOne(rec)
+	rig.panel.CommitUpdate()
+	up, down, _ := rig.credits(1)
+	caseC(o, fmt.Sprintf("race-%d", idx), true)
+	if up != init-carried[0] || down != init-carried[1] {
+		o.V("C16 stored credit differs from granted minus carried at quiescence", map[string]any{"race_script": idx,
+			"overlap": "commitUpdate loop vs traffic+updateUsageQueueForOne loop", "iterations": iters,
+			"carried_up": carried[0], "charged_up": init - up, "carried_down": carried[1], "charged_down": init - down})
+	}
+	for _, s := range server.VerifSessions(rec) {
+		s.Close()
+	}
+}
